@@ -23,6 +23,7 @@ WHAT = {
     "secret-in-server-log": "a secret value appears in a server log record",
     "secret-in-client-log": "a secret value appears in a client log record",
     "schema-reveals-hidden-attribute": "the schema announced to clients reveals a local / cache-only attribute",
+    "hidden-attribute-named-in-event": "an event names a local / cache-only attribute",
 }
 
 
@@ -59,7 +60,7 @@ def run(ctx):
         tot["remediation"][c["remediation"]] = tot["remediation"].get(c["remediation"], 0) + 1
         kinds = sorted(set(v[0] for v in viol))
         if kinds:
-            violations.append({"sig": None, "what": "; ".join(WHAT[k] for k in kinds) + f" (case {i}; first: {viol[0]})",
+            violations.append({"sig": None, "what": "; ".join(WHAT.get(k, k) for k in kinds) + f" (case {i}; first: {viol[0]})",
                                "replay_kind": "secret_case", "case": common.enc(c), "leaks": [list(v) for v in viol[:20]]})
     return {"evaluations": len(cases), "distinct_nontrivial": len(cases),
             "rule": "unique marker tokens in every attribute value of every class (secret / local / cache-only / plain; scalars, lists, "
